@@ -15,131 +15,21 @@ verus! {
 
 //@extract struct renet/src/channel/slice_constructor.rs SliceConstructor
 
-pub mod count_lemmas {
-use vstd::prelude::*;
-pub open spec fn count_true(s: Seq<bool>) -> nat
-    decreases s.len(),
-{
-    if s.len() == 0 { 0 } else { count_true(s.drop_last()) + if s.last() { 1nat } else { 0nat } }
-}
+//@include contracts/shared/sc_specs.rs
 
-pub proof fn lemma_count_true_bounds(s: Seq<bool>)
-    ensures
-        count_true(s) <= s.len(),
-        count_true(s) == s.len() <==> (forall|i: int| 0 <= i < s.len() ==> s[i]),
-    decreases s.len(),
-{
-    if s.len() > 0 {
-        lemma_count_true_bounds(s.drop_last());
-        assert(forall|i: int| 0 <= i < s.len() - 1 ==> s.drop_last()[i] == s[i]);
-        if count_true(s) == s.len() {
-            assert(s.last());
-            assert forall|i: int| 0 <= i < s.len() implies s[i] by {
-                if i < s.len() - 1 { assert(s.drop_last()[i]); }
-            }
-        }
-        if (forall|i: int| 0 <= i < s.len() ==> s[i]) {
-            assert(forall|i: int| 0 <= i < s.len() - 1 ==> s.drop_last()[i]);
-        }
-    }
-}
-
-pub proof fn lemma_count_true_set(s: Seq<bool>, i: int)
-    requires 0 <= i < s.len(), !s[i],
-    ensures count_true(s.update(i, true)) == count_true(s) + 1,
-    decreases s.len(),
-{
-    if i == s.len() - 1 {
-        assert(s.update(i, true).drop_last() =~= s.drop_last());
-    } else {
-        lemma_count_true_set(s.drop_last(), i);
-        assert(s.update(i, true).drop_last() =~= s.drop_last().update(i, true));
-    }
-}
-
-pub broadcast proof fn lemma_count_true_all_false(s: Seq<bool>)
-    requires forall|i: int| 0 <= i < s.len() ==> !s[i],
-    ensures #[trigger] count_true(s) == 0,
-    decreases s.len(),
-{
-    if s.len() > 0 {
-        lemma_count_true_all_false(s.drop_last());
-    }
-}
-
-} // mod count_lemmas
-pub use count_lemmas::*;
 broadcast use {count_lemmas::lemma_count_true_all_false, axiom_vec_index_mut_range};
 
-/// upper limit on the slice count a constructor is created with (Packet::from_bytes enforces it on the wire)
-pub open spec fn max_slices() -> int { 1_000_000 }
-
 impl SliceConstructor {
-    /// representation invariant of an *incomplete* reassembly
-    pub open spec fn wf(&self) -> bool {
-        &&& 1 <= self.num_slices <= max_slices()
-        &&& self.received@.len() == self.num_slices
-        &&& self.num_received_slices == count_true(self.received@)
-        &&& self.num_received_slices < self.num_slices
-        &&& (!self.received@[self.num_slices - 1] ==> self.sliced_data@.len() == self.num_slices * 1200)
-        &&& (self.received@[self.num_slices - 1] ==>
-                (self.num_slices - 1) * 1200 <= self.sliced_data@.len() <= self.num_slices * 1200)
-    }
-
-    /// the bytes slice `i` of message `m` carries on the wire
-    pub open spec fn slice_of(m: Seq<u8>, n: int, i: int) -> Seq<u8> {
-        m.subrange(i * 1200, if i == n - 1 { m.len() as int } else { (i + 1) * 1200 })
-    }
-
-    /// `m` is a message the peer could have cut into `num_slices` slices
-    pub open spec fn fits(&self, m: Seq<u8>) -> bool {
-        (self.num_slices - 1) * 1200 < m.len() <= self.num_slices * 1200
-    }
-
-    /// everything received so far agrees with `m`
-    pub open spec fn agrees(&self, m: Seq<u8>) -> bool {
-        &&& self.fits(m)
-        &&& (self.received@[self.num_slices - 1] ==> self.sliced_data@.len() == m.len())
-        &&& forall|j: int| 0 <= j < m.len() && self.received@[j / 1200] ==> #[trigger] self.sliced_data@[j] == m[j]
-    }
-
 //@fn renet/src/channel/slice_constructor.rs SliceConstructor::new
 //@ret r
 //@safety C03,C06
-//@spec
-        requires
-            1 <= num_slices <= max_slices(),
-        ensures
-            r.wf(),                                              // @C03,C06 new.wf
-            r.num_slices == num_slices,                          // @C03,C06 new.num_slices
-            r.num_received_slices == 0,                          // @C03 new.nothing_received
-            forall|i: int| 0 <= i < num_slices ==> !r.received@[i],   // @C03 new.no_flags
-            forall|m: Seq<u8>| r.fits(m) ==> r.agrees(m),        // @C03 new.agrees_with_anything
+//@specfile contracts/shared/SliceConstructor.new.spec
 //@endfn
 
 //@fn renet/src/channel/slice_constructor.rs SliceConstructor::process_slice
 //@ret r
 //@safety C06
-//@spec
-        requires
-            old(self).wf(),
-        ensures
-            // hostile input: any index, any payload -- the call returns and an out-of-range index is refused
-            slice_index >= old(self).num_slices ==> r is Err && *final(self) == *old(self),      // @C06 process_slice.index_out_of_range_refused
-            r is Err ==> *final(self) == *old(self),                                               // @C06 process_slice.err_changes_nothing
-            final(self).num_slices == old(self).num_slices,                                        // @C06,C09 process_slice.num_slices_frame
-            r matches Ok(None) ==> final(self).wf(),                                               // @C03,C06 process_slice.wf_preserved
-            r matches Ok(Some(_)) ==> old(self).num_received_slices + 1 == old(self).num_slices
-                && slice_index < old(self).num_slices && !old(self).received@[slice_index as int], // @C03 process_slice.complete_only_with_last_missing_slice
-            r matches Ok(None) ==> forall|i: int| 0 <= i < old(self).num_slices ==>
-                final(self).received@[i] == (old(self).received@[i] || i == slice_index),          // @C03 process_slice.flags
-            // authentic input: whatever was assembled so far agrees with message m, and so does the result
-            forall|m: Seq<u8>| #![trigger old(self).agrees(m)] old(self).agrees(m) && slice_index < old(self).num_slices
-                && bytes@ == Self::slice_of(m, old(self).num_slices as int, slice_index as int) ==> {
-                    &&& r is Ok                                                                    // @C03 process_slice.authentic_accepted
-                    &&& (r matches Ok(None) ==> final(self).agrees(m))                             // @C01,C02,C03 process_slice.agreement_preserved
-                    &&& (r matches Ok(Some(x)) ==> x@ == m)                                        // @C01,C02,C03 process_slice.reassembled_equals_submitted
-                },
+//@specfile contracts/shared/SliceConstructor.process_slice.spec
 //@after /self\.num_received_slices \+= 1;/
             proof { lemma_count_true_set(old(self).received@, slice_index as int); }
 //@before /if self\.num_received_slices == self\.num_slices \{/
